@@ -19,6 +19,28 @@ class protect(Command):
 class global_(Command):
     macroName = 'global'
 
+    def invoke(self, tex):
+        # \global makes the \def, \edef or \let that follows it (possibly
+        # after further prefixes) a global assignment
+        prefixes = []
+        for tok in tex.itertokens():
+            if tok.nodeType != Command.ELEMENT_NODE and \
+               tok.macroName in ['long', 'outer', 'global']:
+                prefixes.append(tok)
+                continue
+            if tok.nodeType != Command.ELEMENT_NODE and \
+               tok.macroName in ['def', 'edef', 'let']:
+                obj = self.ownerDocument.createElement(tok.macroName)
+                if isinstance(obj, (DefCommand, let)):
+                    obj.contextDepth = tok.contextDepth
+                    obj.parentNode = tok.parentNode
+                    obj.local = False
+                    obj.invoke(tex)
+                    return [self, obj]
+            tex.pushToken(tok)
+            break
+        tex.pushTokens(prefixes)
+
 class par(Command):
     """ Paragraph """
     level = Command.PAR_LEVEL
@@ -342,10 +364,11 @@ class ifcsname(IfCommand):
 
 class let(Command):
     """ \\let """
+    local = True
     args = 'name:Tok = value:Tok'
     def invoke(self, tex):
         a = self.parse(tex)
-        self.ownerDocument.context.let(a['name'], a['value'])
+        self.ownerDocument.context.let(a['name'], a['value'], local=self.local)
 
 class char(Command):
     """ \\char """
